@@ -7,6 +7,7 @@ import CifModel.Lemmas.NumbDigits
 import CifModel.Lemmas.NumbMisc
 import CifModel.Lemmas.NumbLink
 import CifModel.Lemmas.NumbSyntax
+import CifModel.Lemmas.NumbRoundtrip
 /-
   Property C10 — number text and double values convert with correct rounding.
 
@@ -112,7 +113,7 @@ theorem C10_syntax (s : Str) :
       unfold parseNumb parseNumbZ
       rw [hf]; rfl
   · intro p hp
-    obtain ⟨f, hf, h1, h2, h3, h4⟩ := Lemmas.NumbSyntax.parse_of_parts expSatLimit (cstr s) p hp
+    obtain ⟨f, hf, h1, h2, h3, h4, _⟩ := Lemmas.NumbSyntax.parse_of_parts expSatLimit (cstr s) p hp
     refine ⟨f, hf, h1, h2, ?_, ?_⟩
     · rw [h3]; exact Lemmas.NumbSyntax.su_value p.su
     · intro hlt
@@ -239,14 +240,29 @@ theorem C10_init_correctly_rounded (val su : Bin) (scale maxLead msp : Int) (q :
           rw [← hsd]
           exact (toDigitsBig_value su.m su.e scale hm).1
 
-/-- FULL statements not proved in Lean (checked on every run by the `initnumb` family: the executor parses the produced
-    text back with the real cif_value_parse_numb and the oracle compares sign, digits, su and scale; the oracle
-    recomputes the largest admissible scale with exact rationals) -/
-def C10_init_text_roundtrip_full : Prop :=
-  ∀ (val su : Bin) (scale maxLead msp : Int) (q : Bool) (t : Str) (neg : Bool) (digits : List Nat) (suD : Option (List Nat)) (sc : Int),
-    initNumb val su scale maxLead msp = .ok (V.numb q t neg digits suD sc) →
-    parseNumb t = some ⟨neg, digits, suD, sc⟩
+/-- **C10_init_text_roundtrip** (∀ doubles, su, scales, leading-zero limits and every value of libm's `MSP`): the text
+    `cif_value_init_numb` writes — plain or scientific notation — parses back with `cif_value_parse_numb` to exactly the
+    sign, digit string, su digit string and scale that were recorded in the value object. -/
+theorem C10_init_text_roundtrip (val su : Bin) (scale maxLead msp : Int) (q : Bool) (t : Str) (neg : Bool)
+    (digits : List Nat) (suD : Option (List Nat)) (sc : Int)
+    (h : initNumb val su scale maxLead msp = .ok (V.numb q t neg digits suD sc)) :
+    parseNumb t = some ⟨neg, digits, suD, sc⟩ :=
+  Lemmas.NumbRoundtrip.initNumb_roundtrip val su scale maxLead msp q t neg digits suD sc h
 
+/-- and the same through `cif_value_autoinit_numb`, which ends in `cif_value_init_numb` -/
+theorem C10_autoinit_text_roundtrip (val su : Bin) (rule : Nat) (msp : Int) (q : Bool) (t : Str) (neg : Bool)
+    (digits : List Nat) (suD : Option (List Nat)) (sc : Int)
+    (h : autoinitNumb val su rule msp = .ok (V.numb q t neg digits suD sc)) :
+    parseNumb t = some ⟨neg, digits, suD, sc⟩ := by
+  unfold autoinitNumb at h
+  split at h
+  · cases h
+  · split at h
+    · exact Lemmas.NumbRoundtrip.initNumb_roundtrip _ _ _ _ _ q t neg digits suD sc h
+    · exact Lemmas.NumbRoundtrip.initNumb_roundtrip _ _ _ _ _ q t neg digits suD sc h
+
+/-- FULL statement not proved in Lean (checked on every run by the `initnumb` family: the oracle recomputes the largest
+    admissible scale with exact rationals) -/
 def C10_autoinit_scale_full : Prop :=
   ∀ (val su : Bin) (rule : Nat) (msp : Int) (q : Bool) (t : Str) (neg : Bool) (digits : List Nat) (suD : Option (List Nat)) (sc : Int),
     su.m ≠ 0 → autoinitNumb val su rule msp = .ok (V.numb q t neg digits suD sc) →
